@@ -1130,7 +1130,7 @@ def process_whitespace(box, following_collapsible_space=False):
             if isinstance(child, (boxes.TextBox, boxes.InlineBox)):
                 child_collapsible_space = process_whitespace(
                     child, following_collapsible_space)
-                if box.is_in_normal_flow() and child.is_in_normal_flow():
+                if child.is_in_normal_flow():
                     following_collapsible_space = child_collapsible_space
             elif child.is_in_normal_flow():
                 following_collapsible_space = False
